@@ -126,6 +126,40 @@ func gOptPoint(r rngs) (Opt[point], string) {
 	v, s := gPoint(r)
 	return New_Opt_Some(v), sxList("if", sxList("st", "(Opt Some)", sxList("Value", s)))
 }
+func gHolder(r rngs) (Holder, string) {
+	i, si := gInt(r)
+	sh, ss := gShape(r)
+	return Holder{Id: i, shape: sh}, sxList("st", "(Holder)", sxList("Id", si), sxList("shape", ss))
+}
+func gWrap(r rngs) (Wrap, string) {
+	switch r.st.Intn(3) {
+	case 0:
+		v, s := gHolder(r)
+		return New_Wrap_W(v), sxList("if", sxList("st", "(Wrap W)", sxList("Value", s)))
+	case 1:
+		v, s := gSlice(r, gHolder)
+		return New_Wrap_WS(v), sxList("if", sxList("st", "(Wrap WS)", sxList("Value", s)))
+	}
+	return New_Wrap_N, sxList("if", sxList("st", "(Wrap N)"))
+}
+func gShapeInt(r rngs) (frt.Tuple2[Shape, int], string) {
+	a, sa := gShape(r)
+	b, sb := gInt(r)
+	return frt.NewTuple2(a, b), sxList("st", "(frt.Tuple2)", sxList("E0", sa), sxList("E1", sb))
+}
+func gShapes(r rngs) ([]Shape, string) { return gSlice(r, gShape) }
+func gOptShape(r rngs) (Opt[Shape], string) {
+	if r.st.Intn(3) == 0 {
+		return New_Opt_None[Shape](), sxList("if", sxList("st", "(Opt None)"))
+	}
+	v, s := gShape(r)
+	return New_Opt_Some(v), sxList("if", sxList("st", "(Opt Some)", sxList("Value", s)))
+}
+func gBoxShape(r rngs) (Box[Shape], string) {
+	v, sv := gShape(r)
+	it, si := gSlice(r, gShape)
+	return Box[Shape]{Val: v, items: it}, sxList("st", "(Box)", sxList("Val", sv), sxList("items", si))
+}
 func gInts(r rngs) ([]int, string)     { return gSlice(r, gInt) }
 func gPoints(r rngs) ([]point, string) { return gSlice(r, gPoint) }
 func gIntss(r rngs) ([][]int, string)  { return gSlice(r, gInts) }
@@ -178,6 +212,12 @@ func main() {
 		mk("Box<int>", gBoxInt, eqBoxInt, func(a, b Box[int]) bool { return frt.OpNotEqual(a, b) }),
 		mk("Opt<point>", gOptPoint, eqOptPoint, func(a, b Opt[point]) bool { return frt.OpNotEqual(a, b) }),
 		mk("[][]int", gIntss, eqIntss, func(a, b [][]int) bool { return frt.OpNotEqual(a, b) }),
+		mk("Holder", gHolder, eqHolder, func(a, b Holder) bool { return frt.OpNotEqual(a, b) }),
+		mk("Wrap", gWrap, eqWrap, func(a, b Wrap) bool { return frt.OpNotEqual(a, b) }),
+		mk("Shape*int", gShapeInt, eqShapeInt, func(a, b frt.Tuple2[Shape, int]) bool { return frt.OpNotEqual(a, b) }),
+		mk("[]Shape", gShapes, eqShapes, func(a, b []Shape) bool { return frt.OpNotEqual(a, b) }),
+		mk("Opt<Shape>", gOptShape, eqOptShape, func(a, b Opt[Shape]) bool { return frt.OpNotEqual(a, b) }),
+		mk("Box<Shape>", gBoxShape, eqBoxShape, func(a, b Box[Shape]) bool { return frt.OpNotEqual(a, b) }),
 		mk("point*[]int*bool", gTriple, eqTriple, func(a, b frt.Tuple3[point, []int, bool]) bool { return frt.OpNotEqual(a, b) }),
 	}
 	r := rand.New(rand.NewSource(seed))
